@@ -164,7 +164,7 @@ func goodCopy(out, in interface{}) error {
 
 type rawCloner struct{}
 
-func (rawCloner) Copy(out, in interface{}) error              { return goodCopy(out, in) }
+func (rawCloner) Copy(out, in interface{}) error            { return goodCopy(out, in) }
 func (rawCloner) Clone(in interface{}) (interface{}, error) { return goodClone(in) }
 
 var adapterNames = []string{"ProtoCloner", "CodecCloner", "CloneFunc", "CopyFunc"}
